@@ -126,6 +126,19 @@ def run(ctx):
                 pay = T.operand(s["r"]["ops"][0])
                 if pay == ("agg", ("adt", "std::option::Option", "None"), ()):
                     none_blocks.append((bb, si))
+    # any other payload of Ok(..) — a computed Option such as self.exit_status() — may be None while the child runs: that is 'still running'
+    # reported without the clock having been consulted, admissible only when the requested duration is exactly zero
+    durp = ("param", 2, owt.local_name(2))
+    zero_e = bool_edges(owt, T, lambda c: c[0] == "call" and c[1] == "std::time::Duration::is_zero" and M.noref(c[2][0]) == durp, True)
+    for bb in sorted(owt.live_blocks()):
+        for si, s in enumerate(owt.blocks[bb]["stmts"]):
+            if s["k"] == "assign" and s["p"]["l"] == 0 and not s["p"]["proj"] and s["r"]["k"] == "agg" and s["r"]["variant"] == "Ok":
+                pay = T.operand(s["r"]["ops"][0])
+                lit = pay[0] == "agg" and pay[1][:2] == ("adt", "std::option::Option")
+                if not lit:
+                    ctx.ob("R11.3", "computed-status-only-for-zero-duration", bool(zero_e) and dominated_by_edges(owt, bb, zero_e), owt.loc(bb, si),
+                           "Ok(%s) returns an Option that is not built here: it can be None ('still running') although the deadline test has not run; "
+                           "allowed only under `dur.is_zero()` — a test such as as_millis() == 0 also admits every sub-millisecond duration" % M.term_str(pay)[:80])
     ctx.floor("R11.3", "Ok(None) returns", len(none_blocks), 1)
     for bb, si in none_blocks:
         ctx.ob("R11.3", "none-only-after-deadline", dominated_by_edges(owt, bb, true_edges), owt.loc(bb, si),
